@@ -188,6 +188,14 @@ def run(tier):
     check_ownership(rep, funcs, rel)
     import borrow
     borrow.rule(rep, funcs, lambda t: bool(ITER.search(t or "")), rel, 0)
+    import progress
+    progress.rule(rep, funcs, rel, {})
+    more = [u for u in units_under("mtest/src") if u not in units] if tier == "thorough" else []
+    more += units_under("src/Utilities")
+    if tier == "thorough":
+        more += [u for u in units_under("src/Math") if re.search(r"(Evaluator|Parser|parser)", u)]
+    progress.scan(rep, sorted(set(more)), r"^(mtest|tfel)::", rel, {}, "libraries")
+    rep.floor("loops examined for progress", 30)
     rep.floor("iterator dereference sites", 150)
     rep.floor("summaries: helpers establishing CHECKED", 2)
     rep.assumptions += ["a necessary condition only: other sources of undefined behaviour and termination are not decided",
